@@ -381,17 +381,26 @@ func TestVerifC09Stress(t *testing.T) {
 				time.Sleep(500 * time.Microsecond)
 			}
 		}
-		prodDone := make(chan struct{})
-		go func() { prod.Wait(); close(prodDone) }()
-		if !c09WatchProgress(rec, prodDone, func() int64 {
-			return lookups.Load() + sweeps.Load() + reloads.Load() + atomic.LoadInt64(&e.rm.totalIngestMessages)
-		}, round) {
+		progress := func() int64 {
+			// (the reload goroutine does not touch the registry lock and would keep "progressing" through a registry deadlock)
+			return lookups.Load() + sweeps.Load() + atomic.LoadInt64(&e.rm.totalIngestMessages)
+		}
+		drained := make(chan struct{})
+		go func() {
+			prod.Wait()
+			kitWait(10*time.Minute, func() bool { return len(regChan) == 0 })
+			close(drained)
+		}()
+		if !c09WatchProgress(rec, drained, progress, round) {
 			return
 		}
-		kitWait(30*time.Second, func() bool { return len(regChan) == 0 })
 		time.Sleep(20 * time.Millisecond)
 		close(stop)
-		aux.Wait()
+		auxDone := make(chan struct{})
+		go func() { aux.Wait(); close(auxDone) }()
+		if !c09WatchProgress(rec, auxDone, progress, round) {
+			return
+		}
 		cancel()
 		// an idle channel after cancel is C09's shutdown scenario; here just unblock the distributor
 		select {
@@ -470,7 +479,7 @@ func c09WatchProgress(rec *kit.Rec, done chan struct{}, progress func() int64, r
 		var states, stacks []string
 		for scan := 0; scan < 3 && stable; scan++ {
 			states = states[:0]
-			for _, g := range kit.InFunc(kit.Stacks(), "pkg/station/lib.(*Reg") {
+			for _, g := range kit.InFunc(kit.Stacks(), "pkg/station/lib.(*RegisteredDecoys)") {
 				states = append(states, g.State)
 				if !g.Blocked() {
 					stable = false
@@ -485,7 +494,7 @@ func c09WatchProgress(rec *kit.Rec, done chan struct{}, progress func() int64, r
 			time.Sleep(time.Second)
 		}
 		if stable && len(states) > 0 {
-			rec.Violation("deadlock:stress-mix-blocked-forever", "ingest workers, handlers and the sweeper block each other: no progress and every goroutine inside the station library is parked on a lock",
+			rec.Violation("deadlock:stress-mix-blocked-forever", "ingest workers, handlers and the sweeper block each other: no progress and every goroutine inside the registry is parked on its lock",
 				map[string]interface{}{"round": round, "goroutine_states": states, "stacks": stacks})
 			return false
 		}
